@@ -85,10 +85,10 @@ func genC05(r *vh.Rand, idx int) c05Spec {
 		if r.Chance(3, 5) {
 			at := r.Intn(horizon)
 			s.Ops = append(s.Ops, c05Op{Kind: "close", Side: side, At: at, K: r.Range(1, 3)})
-			if s.Version == "" && side == "client" {
+			if s.Version == "" {
 				// 2026-07-28: resource subscriptions are listen streams; some start at the very instant Close begins
 				m := r.Range(1, 3)
-				if r.Chance(1, 2) {
+				if r.Chance(1, 2) && s.Transport != "pipe" { // unbuffered pipes: a blocked write holds a mutex, which stalls virtual time
 					m = r.Range(8, 32) // a burst: the window between Close's sweep and the connection refusing calls is narrow
 				}
 				for k := 0; k < m; k++ {
